@@ -587,7 +587,7 @@ impl<'a> Run<'a> {
             }
             let hp = op == "X1";
             self.begin(&format!("X {} {} ", self.now, hp as u8));
-            let mut buf = vec![0u8; self.conf.bufsize];
+            let mut buf = vec![0xA5u8; self.conf.bufsize] /* stale bytes: a PHY reuses its buffer (seeded R5-C03-1) */;
             let now = self.instant();
             let (m, f) = (&mut self.master, &self.fdl);
             let r = guarded(|| {
